@@ -215,37 +215,78 @@ def _as_block(e):
     return {"k": "Block", "l": e["l"], "c": e["c"], "el": e["el"], "ec": e["ec"], "stmts": [{"k": "ExprStmt", "expr": e, "semi": True, "l": e["l"], "c": e["c"], "el": e["el"], "ec": e["ec"]}]}
 
 
+def _retarget_returns(body, try_form):
+    """inside the closure body (not inside nested closures): `return` (for_each) / `return Ok(..)` (try_for_each) ends this element
+    only = `continue`; a `return Err(..)` of a try_for_each closure leaves the function through the `?`, as a `return` in the loop does"""
+    ok = True
+    stack = [body]
+    while stack:
+        x = stack.pop()
+        if isinstance(x, dict):
+            if x.get("k") == "Closure":
+                continue
+            if x.get("k") == "Return":
+                e = x.get("expr")
+                is_ok = e is not None and e.get("k") == "Call" and e["func"].get("k") == "Path" and e["func"]["path"].split("::")[-1] == "Ok"
+                if not try_form or is_ok:
+                    pos = {k: x[k] for k in ("l", "c", "el", "ec")}
+                    x.clear()
+                    x.update({"k": "Continue", "label": None, **pos})
+                    continue
+            stack.extend(v for v in x.values() if isinstance(v, (dict, list)))
+        elif isinstance(x, list):
+            stack.extend(v for v in x if isinstance(v, (dict, list)))
+    return ok
+
+
+def _loop_of(e, tr):
+    clo = e["args"][0]
+    body = clo["body"]
+    _retarget_returns(body, bool(tr))
+    if tr:
+        inner = {"k": "Try", "expr": body, "l": body["l"], "c": body["c"], "el": body["el"], "ec": body["ec"]}
+        blk = {"k": "Block", "l": body["l"], "c": body["c"], "el": body["el"], "ec": body["ec"],
+               "stmts": [{"k": "ExprStmt", "expr": inner, "semi": True, "l": body["l"], "c": body["c"], "el": body["el"], "ec": body["ec"]}]}
+    else:
+        blk = _as_block(body)
+        if blk["stmts"] and blk["stmts"][-1].get("k") == "ExprStmt":
+            blk["stmts"][-1]["semi"] = True
+    return {"k": "ForLoop", "pat": clo["params"][0], "iter": e["recv"], "body": blk, "label": None, "l": e["l"], "c": e["c"], "el": e["el"], "ec": e["ec"]}
+
+
+def _is_each(e, name):
+    return isinstance(e, dict) and e.get("k") == "MethodCall" and e.get("method") == name and len(e.get("args", [])) == 1 and e["args"][0].get("k") == "Closure" and len(e["args"][0].get("params", [])) == 1
+
+
 def desugar_loops(data):
     """In place: a statement `recv.for_each(|pat| body);` becomes `for pat in recv { body; }`; `recv.try_for_each(|pat| body)?;`
-    becomes `for pat in recv { (body)?; }` (the first error leaves the function, as the `?` on try_for_each does).  Only closures
-    with one parameter and no `return` inside are rewritten (a `return` in a closure is a `continue` of the loop, not a return).
-    The rules then see one idiom for `do this for every element`."""
+    becomes `for pat in recv { (body)?; }` (the first error leaves the function, as the `?` on try_for_each does); a block whose
+    value is `recv.try_for_each(|pat| body)` becomes that loop followed by `Ok(())`.  A `return` inside the closure ends one
+    element (`continue`).  The rules then see one idiom for `do this for every element`."""
     n = 0
     stack = [data]
     while stack:
         x = stack.pop()
         if isinstance(x, dict):
+            if x.get("k") == "Block" and x.get("stmts"):
+                last = x["stmts"][-1]
+                if last.get("k") == "ExprStmt" and not last.get("semi") and _is_each(last.get("expr"), "try_for_each"):
+                    e = last["expr"]
+                    pos = {k: e[k] for k in ("l", "c", "el", "ec")}
+                    loop = _loop_of(e, True)
+                    x["stmts"][-1] = {"k": "ExprStmt", "expr": loop, "semi": True, **pos}
+                    okv = {"k": "Call", "func": {"k": "Path", "path": "Ok", **pos}, "args": [{"k": "Tuple", "elems": [], **pos}], **pos}
+                    x["stmts"].append({"k": "ExprStmt", "expr": okv, "semi": False, **pos})
+                    n += 1
             if x.get("k") == "ExprStmt" and isinstance(x.get("expr"), dict):
                 e = x["expr"]
                 tr = None
                 if e.get("k") == "Try" and isinstance(e.get("expr"), dict):
                     tr, e = e, e["expr"]
-                if e.get("k") == "MethodCall" and e.get("method") == ("try_for_each" if tr else "for_each") and len(e.get("args", [])) == 1 and e["args"][0].get("k") == "Closure":
-                    clo = e["args"][0]
-                    if len(clo.get("params", [])) == 1 and not _has_return(clo["body"]):
-                        body = clo["body"]
-                        if tr:
-                            inner = {"k": "Try", "expr": body, "l": body["l"], "c": body["c"], "el": body["el"], "ec": body["ec"]}
-                            blk = {"k": "Block", "l": body["l"], "c": body["c"], "el": body["el"], "ec": body["ec"],
-                                   "stmts": [{"k": "ExprStmt", "expr": inner, "semi": True, "l": body["l"], "c": body["c"], "el": body["el"], "ec": body["ec"]}]}
-                        else:
-                            blk = _as_block(body)
-                            if blk["stmts"] and blk["stmts"][-1].get("k") == "ExprStmt":
-                                blk["stmts"][-1]["semi"] = True
-                        x["expr"] = {"k": "ForLoop", "pat": clo["params"][0], "iter": e["recv"], "body": blk, "label": None,
-                                     "l": e["l"], "c": e["c"], "el": e["el"], "ec": e["ec"]}
-                        x["semi"] = True
-                        n += 1
+                if _is_each(e, "try_for_each" if tr else "for_each") and (tr or x.get("semi") or True):
+                    x["expr"] = _loop_of(e, tr)
+                    x["semi"] = True
+                    n += 1
             stack.extend(v for v in x.values() if isinstance(v, (dict, list)))
         elif isinstance(x, list):
             stack.extend(v for v in x if isinstance(v, (dict, list)))
